@@ -26,6 +26,14 @@ CHECKS = {
          "All descriptions over a 2 (thorough: 3) name universe x any_inputs x 3 types; world.start()+connect() through a meta-mirroring simulator; all operand pairs of the set algebra.", "5/C12"),
  "C18": ("exploration", "C", "runtime monitoring: counting oracle over recorded World.connect calls of the bulk helpers",
          "All admissible sizes up to 12x6 (thorough 24x10) x caps x 50 (500) seeds.", "5/C18"),
+ "C09": ("exploration", "A", "runtime monitoring: loop-length arithmetic over model labels, outcome and error text of run()",
+         "All (N, M) around the bound for canonical 2/3-member weak loops in 5 placements under rotating schedules, non-settling loops, generated multi-weak scenarios (envelope only).", "3/C09"),
+ "C13": ("fault_enumeration", "A", "runtime monitoring with fault injection: every malformed reply value x step index x simulator position; expected rejection naming the simulator",
+         "Enumerates (simulator, step index, malformed value) over generated scenarios; checks error text, no further request to the offender, consistent step set of everybody.", "3/C13"),
+ "C16": ("exploration", "A", "runtime monitoring: exactly-once history check of set_data values with unique ids; ordering oracle; refusal of unauthorised requests",
+         "Generated agent scenarios (ratios, 1-3 agents, sparse writes) under controlled schedules.", "3/C16"),
+ "C17": ("exploration", "A", "runtime monitoring on a virtual clock: pacing arithmetic, too-slow reports, rt_strict differential, injected set_event",
+         "Virtual clock makes timing deterministic; dyadic factors. One open known finding (consumers one slot late and reported too slow).", "3/C17"),
  "C10": ("exploration", "A", "runtime monitoring: ordering oracle (producer begin vs. consumers' outstanding steps), lazy_stepping=True",
          "At every producer step begin no consumer has an unfinished demanded step of an earlier time.", "3/C10"),
 }
